@@ -129,6 +129,13 @@ pub fn run_history(ctx: &Ctx, steps: &[Step], tr_policy: u64, sorenson: bool, rn
     cfg.pei = 0;
     let mut dec = Dec::new(sorenson, false);
     dec.chunk = *rng.pick(&[usize::MAX, usize::MAX, usize::MAX, 1, 4, 100]);
+    if rng.chance(1, 6) {
+        dec.stall = Some((rng.below(1001) as usize, rng.below(3) as u8));
+    }
+    // ... or arrive late: the first few bytes of each picture now, the rest after the call failed for lack of data
+    if dec.stall.is_none() && rng.chance(1, 8) {
+        dec.trickle = Some(1 + rng.below(6) as usize);
+    }
     let mut stored: Vec<Stored> = vec![];
     let (mut last, mut reference): (Option<usize>, Option<usize>) = (None, None);
     let mut tr = rng.byte();
@@ -369,6 +376,7 @@ pub fn run_history(ctx: &Ctx, steps: &[Step], tr_policy: u64, sorenson: bool, rn
     }
     rep.count(&format!("len={}", if steps.len() > 40 { "long".to_string() } else { steps.len().to_string() }));
     rep.count("histories_completed");
+    rep.add("calls_repeated_after_transient_source_error", dec.stalls_retried as u64);
     if nontrivial {
         rep.distinct.insert(fp);
     }
@@ -493,7 +501,7 @@ pub fn run(ctx: &Ctx) -> (Report, String) {
     if ctx.is_main() {
         let m = ctx.scale_pct;
         rep.require("histories_completed", if thorough { 2_500_000 } else { 150_000 } * m / 100);
-        for k in ["predictions_identified", "predictions_after_non_reference_event", "tr_collision_cases", "trigram:IDP", "trigram:PDP", "trigram:DDP", "trigram:DFP", "trigram:DCP", "bigram:DD", "cleanup_calls", "rejected_inputs", "last_picture_checks", "reference_picture_checks", "early_ending_predicted_pictures", "all_intra_disposable_of_other_size", "trigram:TPP", "trigram:XPP"] {
+        for k in ["predictions_identified", "predictions_after_non_reference_event", "tr_collision_cases", "trigram:IDP", "trigram:PDP", "trigram:DDP", "trigram:DFP", "trigram:DCP", "bigram:DD", "cleanup_calls", "rejected_inputs", "last_picture_checks", "reference_picture_checks", "early_ending_predicted_pictures", "all_intra_disposable_of_other_size", "trigram:TPP", "trigram:XPP", "calls_repeated_after_transient_source_error"] {
             rep.require(k, 100 * m / 100);
         }
     }
